@@ -35,16 +35,17 @@ const (
 // or the length doesn't match return false.
 func consumeSingleTURNFrame(b []byte) (int, error) {
 	// Too short to determine if ChannelData or STUN
-	if len(b) < 9 {
+	if len(b) < channelDataHeaderSize {
 		return 0, errIncompleteTURNFrame
 	}
 
 	// The frame size is computed as an int: header plus a 16-bit length does
 	// not fit a uint16 and would wrap to a size smaller than the header.
 	var datagramSize int
+	// The first two bits tell the two apart (RFC 5766 Section 11): 00 is a
+	// STUN message, 01 a channel number. The channel number is tested first,
+	// a ChannelData payload may begin with the STUN magic cookie.
 	switch {
-	case stun.IsMessage(b):
-		datagramSize = int(binary.BigEndian.Uint16(b[2:4])) + stunHeaderSize
 	case ChannelNumber(binary.BigEndian.Uint16(b[0:2])).Valid():
 		datagramSize = int(binary.BigEndian.Uint16(b[channelDataNumberSize:channelDataHeaderSize]))
 		if paddingOverflow := (datagramSize + channelDataPadding) % channelDataPadding; paddingOverflow != 0 {
@@ -52,8 +53,12 @@ func consumeSingleTURNFrame(b []byte) (int, error) {
 		}
 
 		datagramSize += channelDataHeaderSize
+	case b[0]&0xC0 != 0:
+		return 0, errInvalidTURNFrame
 	case len(b) < stunHeaderSize:
 		return 0, errIncompleteTURNFrame
+	case stun.IsMessage(b):
+		datagramSize = int(binary.BigEndian.Uint16(b[2:4])) + stunHeaderSize
 	default:
 		return 0, errInvalidTURNFrame
 	}
